@@ -8,6 +8,7 @@ MODULE = "cspuz.puzzle.yajilin"
 FUNC = "solve_yajilin"
 LOOP = True
 KIND = {"^": 1, "v": 2, "<": 3, ">": 4}
+TIER1 = ("Yajilin", "solve_yajilin_model")
 
 
 def call(mod, pb):
@@ -82,3 +83,39 @@ def big(tier, rng):
             yield {"h": 1, "w": n, "grid": [row], "planted": [[0] * (n - 1) + black], "n_solutions": 1}
             col = [[{"<": "^", ">": "v"}.get(c[0], c[0]) + c[1:]] for c in row]
             yield {"h": n, "w": 1, "grid": col, "planted": [[0] * (n - 1) + black], "n_solutions": 1}
+
+
+def tier1_problems(tier, rng):
+    """program-capture tie: every clue grid of the boards with <= 2 cells over '..', '??' and the four arrows with the
+    numbers 0..2 (also numbers no board of that size can reach), a sample of all grids on the boards with 3..6 cells
+    (both orientations), random grids on larger and non-square boards (up to 7x7, 1xN, Nx1) with numbers at and beyond
+    the boundaries (negative, the length of the ray, one more, two-digit), boards dense in clues, and malformed problems:
+    height < 1 or width < 1 (ValueError), trailing cells / rows missing (IndexError)"""
+    th = tier == "thorough"
+    for (h, w) in [(1, 1), (1, 2), (2, 1)]:
+        for g in L.all_grids(h, w, _cellvals(2)):
+            yield {"h": h, "w": w, "grid": g}
+    small = ["..", "..", "??"] + [d + str(n) for d in "^v<>" for n in (0, 1)]
+    for (h, w) in [(1, 3), (3, 1), (2, 2), (1, 4), (4, 1), (1, 5), (5, 1), (2, 3), (3, 2), (1, 6), (6, 1)]:
+        for g in L.sample(rng, L.all_grids(h, w, small), 150 if th else 14):
+            yield {"h": h, "w": w, "grid": g}
+
+    def far(h, w, y, x):
+        d = rng.choice("^v<>")
+        ray = {"^": y, "v": h - 1 - y, "<": x, ">": w - 1 - x}[d]
+        return d + str(rng.choice([-2, -1, 0, 0, 1, 1, 2, (ray + 1) // 2, ray, ray + 1, 10, 37]))
+
+    for (h, w) in [(3, 3), (2, 4), (4, 2), (2, 5), (5, 2), (3, 4), (4, 3), (4, 4), (3, 6), (6, 3), (5, 5), (4, 6),
+                   (6, 5), (7, 7), (1, 7), (7, 1), (1, 9), (8, 1), (2, 7), (7, 2)]:
+        for p in [0.85, 0.5, 0.1] * (3 if th else 1):
+            yield {"h": h, "w": w, "grid": [[".." if rng.random() < p else rng.choice(["??", far(h, w, y, x), far(h, w, y, x)])
+                                             for x in range(w)] for y in range(h)]}
+    # malformed: a dimension below 1 -> ValueError
+    for (h, w) in [(0, 0), (0, 1), (1, 0), (0, 3), (3, 0), (-1, 2), (2, -1), (-1, -1), (-3, -3), (-2, 5), (4, -2), (0, -1)]:
+        yield {"h": h, "w": w, "grid": [[".."] * max(w, 0) for _ in range(max(h, 0))]}
+    # malformed: trailing cells / rows missing -> IndexError (after everything else was posted)
+    for (h, w) in [(1, 1), (1, 3), (2, 2), (3, 2), (4, 4)]:
+        g = L.random_grid(rng, h, w, _cellvals(2), 0.5)
+        yield {"h": h, "w": w, "grid": g[:-1] + [g[-1][:-1]]}
+        yield {"h": h, "w": w, "grid": g[:-1]}
+        yield {"h": h, "w": w, "grid": []}
